@@ -49,6 +49,88 @@ def apply(prog: Program, m: Dict[str, Any]) -> Optional[Dict[str, str]]:
     return out
 
 
+def apply_unified(prog: Program, patch_text: str) -> Optional[Dict[str, str]]:
+    """Apply a unified diff (as written by `git diff`) to the sources of `prog`, in memory. Hunks are located by their
+    context lines (searched near the stated line number), so the patch keeps applying when unrelated lines move.
+    Returns rel-path -> new source, or None if a hunk cannot be placed."""
+    import re
+    files: Dict[str, List[List[str]]] = {}
+    cur = None
+    hunk: Optional[List[str]] = None
+    for line in patch_text.splitlines():
+        if line.startswith('+++ '):
+            path = line[4:].strip()
+            cur = path[2:] if path.startswith('b/') else path
+            files[cur] = []
+            hunk = None
+        elif line.startswith('--- ') or line.startswith('diff ') or line.startswith('index '):
+            continue
+        elif line.startswith('@@') and cur is not None:
+            m = re.match(r'@@ -(\d+)', line)
+            hunk = [m.group(1) if m else '1']
+            files[cur].append(hunk)
+        elif hunk is not None and (line[:1] in (' ', '+', '-') or line == ''):
+            hunk.append(line if line else ' ')
+    out: Dict[str, str] = {}
+    for rel, hunks in files.items():
+        mod = [x for x in prog.modules.values() if x.rel == rel]
+        if not mod:
+            return None
+        lines = mod[0].source.split('\n')
+        offset = 0
+        for h in hunks:
+            start = int(h[0]) - 1 + offset
+            old = [l[1:] for l in h[1:] if l[:1] in (' ', '-')]
+            new = [l[1:] for l in h[1:] if l[:1] in (' ', '+')]
+            pos = None
+            for d in sorted(range(-80, 81), key=abs):
+                i = start + d
+                if 0 <= i and lines[i:i + len(old)] == old:
+                    pos = i
+                    break
+            if pos is None:
+                return None
+            lines[pos:pos + len(old)] = new
+            offset += len(new) - len(old)
+        out[rel] = '\n'.join(lines)
+    return out
+
+
+def run_seeded(prop: str, prog: Program, baseline: Optional[Check] = None) -> Dict[str, Any]:
+    """The independently written changes kept under /verif/seeded that target `prop`, analysed in memory."""
+    import json as _json
+    base_dir = os.path.join(os.path.dirname(os.path.dirname(os.path.abspath(__file__))), 'seeded')
+    mod = importlib.import_module(f'pjx.props.{prop.lower()}')
+    if baseline is None:
+        baseline = Check(prop, 'quick')
+        mod.run(baseline, prog)
+    base_keys = {f.key for f in baseline.findings}
+    res: Dict[str, Any] = {'seeded': 0, 'reported': {}, 'not_reported': [], 'not_applicable': []}
+    if not os.path.isdir(base_dir):
+        return res
+    for name in sorted(os.listdir(base_dir)):
+        d = os.path.join(base_dir, name)
+        if not os.path.isdir(d) or not name.startswith(prop + '-'):
+            continue
+        res['seeded'] += 1
+        ov = apply_unified(prog, open(os.path.join(d, 'patch.diff')).read())
+        if ov is None:
+            res['not_applicable'].append(name)
+            continue
+        try:
+            ck = Check(prop, 'quick')
+            mod.run(ck, Program(prog.repo, prog.pkg, overrides=ov))
+            new = sorted({f.rule for f in ck.findings if f.key not in base_keys})
+        except AnalysisError as e:
+            new = []
+            res.setdefault('analysis_error', {})[name] = str(e)[:120]
+        if new:
+            res['reported'][name] = new
+        else:
+            res['not_reported'].append(name)
+    return res
+
+
 def run_battery(prop: str, prog: Program, baseline: Optional[Check] = None) -> Dict[str, Any]:
     mod = importlib.import_module(f'pjx.props.{prop.lower()}')
     mutants: List[Dict[str, Any]] = getattr(mod, 'MUTANTS', [])
